@@ -191,10 +191,14 @@ CLAIMS = {
             "every path; paths that record a removed binary return CHANGE|INCOMPATIBLE",
             "per-binary agreement with abidiff and the matching of binaries are runtime",
             "§3 R-STATUS S5, R-ACCUM; §4 C30"),
-    "C21": ("AST shape rule over all overriders of diff::has_changes (sibling agreement)",
+    "C21": ("AST shape rule over all overriders of diff::has_changes (sibling agreement) + operand-pairing rule over "
+            "the ir::equals overloads",
             "every artifact diff's has_changes() is the negation of the IR deep-equality operator applied to the "
-            "node's own first/second subjects; one deviant sibling (array_diff) is a recorded finding",
-            "symmetry of equals() and hash consistency are runtime properties of type graphs and are not decided",
+            "node's own first/second subjects; one deviant sibling (array_diff) is a recorded finding. R-EQSYM: every "
+            "==/!= inside an ir::equals(l, r, k) overload whose operands derive from the parameters pairs the same "
+            "accessor path of l and of r (or is a same-side bound, an end() sentinel, or a mirrored constant test)",
+            "symmetry of equals() over cyclic type graphs (canonical-type propagation) and hash consistency are "
+            "runtime properties and are not decided; R-EQSYM decides only the syntactic pairing",
             "§3 R-HASCHG, §4 C21"),
 }
 
